@@ -66,6 +66,8 @@ class URI(object):
             self._parseLocation(location, None)
         elif self.protocol == "PYROMETA":
             self.object = set(m.strip() for m in self.object.split(","))
+            if any(m.startswith("@") for m in self.object):
+                raise errors.PyroError("invalid uri (metadata tag cannot start with '@')")
             self._parseLocation(location, config.NS_PORT)
         else:
             raise errors.PyroError("invalid uri (protocol)")
@@ -114,7 +116,7 @@ class URI(object):
 
     def __str__(self):
         if self.protocol == "PYROMETA":
-            result = "PYROMETA:" + ",".join(self.object)
+            result = "PYROMETA:" + ",".join(sorted(self.object))
         else:
             result = self.protocol + ":" + self.object
         if self.location:
@@ -133,13 +135,18 @@ class URI(object):
         return not self.__eq__(other)
 
     def __hash__(self):
-        return hash(self.__getstate__())
+        protocol, obj, sockname, host, port = self.__getstate__()
+        if isinstance(obj, set):
+            obj = frozenset(obj)   # PYROMETA: the object is a set of metadata tags
+        return hash((protocol, obj, sockname, host, port))
 
     def __getstate__(self):
         return self.protocol, self.object, self.sockname, self.host, self.port
 
     def __setstate__(self, state):
         self.protocol, self.object, self.sockname, self.host, self.port = state
+        if self.protocol == "PYROMETA" and not isinstance(self.object, set):
+            self.object = set(self.object)   # some serializers turn the set of tags into a list
 
 
 class _ExceptionWrapper(object):
